@@ -2,7 +2,9 @@
    [Model/System.v]: L1 state x L2 state x bookkeeping ([paid] = L2 sequences claimed OK,
    [donated] = plain bank credits to the escrow, incl. claims addressed to the escrow itself).
    System steps: L1 user deposit into the bridge; L1 bank send (never signed by the escrow);
-   every L2 message except deposits and ExecuteMessages wrappers; Relay k (the deposit message
+   EVERY L2 message, also nested ExecuteMessages batches of the admin, provided each deposit
+   message in it is a faithful relay (recipient, L1 sender, denoms and amount copied from the
+   emitted L1 event of its sequence; sender, height, hook free); Relay k (the deposit message
    whose fields are COPIED from the emitted L1 event of sequence k - any k, any number of
    times, any sender, any hook, including hook transactions that carry withdrawals); Propose (honest root over any event range) / Delete; Claim m
    (the claim built from the RECORDED withdrawal m with [Merkle.prove] at the position found by its sequence); block time and height
@@ -10,8 +12,8 @@
    environment change, for any bridge); Other (bridge creation, and deposit / propose / delete /
    claim addressed to ANY OTHER bridge - guarded by the account-space assumptions: not spent
    from our escrow, the other escrow and the community pool are not our escrow; a payout of
-   another bridge to our escrow counts as a donation).  Not system steps (see docs/C08.md):
-   ExecuteMessages-wrapped L2 messages. *)
+   another bridge to our escrow counts as a donation).  Every message kind of both modules is
+   covered; the only restriction is the faithfulness of relayed deposits. *)
 From stdpp Require Import gmap numbers list.
 From Coq Require Import ZArith.
 Require Import Model.Bytes Model.Bank Model.Hashes Model.Merkle Model.System.
